@@ -149,6 +149,19 @@ def kArrayRankJit (a : List Int) : Int :=
   | [] => 0
   | a0 :: rest => a0 + kArrayRankJitAux rest 1
 
+/-- the loop `for i in range(1, k): idx += comb_jit(a[i], i+1)` of `k_array_rank_jit` as the
+    machine executes it: accumulating from the left, every arithmetic result reduced to `int64` -/
+def kArrayRankJitWLoop : List Int → Int → Int → Int
+  | [], _, idx => idx
+  | ai :: rest, i, idx =>
+    kArrayRankJitWLoop rest (wrap64 (i + 1)) (wrap64 (idx + combJitW ai (wrap64 (i + 1))))
+
+/-- `k_array_rank_jit` with `int64` wrap-around (what Numba computes, also when the sum overflows) -/
+def kArrayRankJitW (a : List Int) : Int :=
+  match a with
+  | [] => 0
+  | a0 :: rest => kArrayRankJitWLoop rest 1 a0
+
 /-! ### cartesian / _repeat_1d -/
 
 /-- `_repeat_1d(x, K, out)` as the function `ind ↦ out[ind]`: with N = len x,
@@ -244,6 +257,10 @@ def handle (toks : List String) : String :=
   | "krankjit" :: r =>
     match kvInts r "a" with
     | some a => toString (kArrayRankJit a)
+    | _ => "bad-op"
+  | "krankjitw" :: r =>
+    match kvInts r "a" with
+    | some a => if a.isEmpty then "bad-op" else toString (kArrayRankJitW a)
     | _ => "bad-op"
   | "cartesian" :: r =>
     match kvIntMat r "nodes", kv r "order" with
